@@ -603,8 +603,31 @@ func c17Run(r *core.Run) {
 		}
 		l.States++
 	}
+	// the configured charset goes out as configured: names of every spelling the registries use
+	for _, cs := range c17Charsets {
+		for _, op := range c17CharsetOps {
+			for _, ind := range []string{"", " "} {
+				o := c17Opts{Charset: cs, JSONIndent: ind, XMLIndent: ind}
+				l.Evals++
+				l.Transitions++
+				l.Traces++
+				l.States++
+				l.NonTrivial++
+				if bad, kind := c17Judge(c17Build(o), o, op); bad != "" {
+					l.Class("mismatch")
+					l.Violate(kind+"/charset-name/"+op.Kind, bad+fmt.Sprintf(" [options %+v, %s(%d)]", o, op.Kind, op.Status), c17Case{Opts: o, Kind: "charset:" + op.Kind, Status: op.Status})
+				} else {
+					l.Class("charset-names")
+				}
+			}
+		}
+	}
+	r.Bounds["charset_names"] = c17Charsets
 	r.Merge(l)
 }
+
+var c17Charsets = []string{"utf-8", "UTF-8", "ISO-8859-1", "Shift_JIS", "KS_C_5601-1987", "windows-1252", "US-ASCII", "utf-16le", "x-user.defined:1+2", "cp 437", "latin1;q=1", "\"quoted\"", "gb2312"}
+var c17CharsetOps = []c17Op{{"JSON", 200, map[string]int{"x": 1}}, {"XML", 201, c17Flat{A: "x"}}, {"Binary", 200, []byte("x")}, {"PlainText", 404, "x"}}
 
 func c17Replay(raw json.RawMessage) (bool, string) {
 	var c c17Case
@@ -613,6 +636,15 @@ func c17Replay(raw json.RawMessage) (bool, string) {
 	}
 	if c.Kind == "availability" {
 		return false, "re-run the check"
+	}
+	if strings.HasPrefix(c.Kind, "charset:") {
+		for _, op := range c17CharsetOps {
+			if "charset:"+op.Kind == c.Kind {
+				bad, _ := c17Judge(c17Build(c.Opts), c.Opts, op)
+				return bad != "", bad
+			}
+		}
+		return false, "case not found"
 	}
 	for _, th := range []bool{false, true} {
 		ops := c17Ops(th)
